@@ -5,9 +5,9 @@ import importlib
 # property -> list of (module, function name).  A function may serve several properties; its findings and
 # recorded obligations are filtered by property.
 RULES = {
-    "C01": [("sa.rules.b6", "r_C19a_C01"), ("sa.rules.c01", "r_C01ef"), ("sa.rules.c17", "r_C01h"), ("sa.rules.c01", "r_C01i"), ("sa.rules.c22", "r_rule_params_eval"), ("sa.rules.b6", "r_C23"), ("sa.rules.c04", "r_C04a"), ("sa.rules.c04", "r_C04num")],
+    "C01": [("sa.rules.b6", "r_C19a_C01"), ("sa.rules.c01", "r_C01ef"), ("sa.rules.c17", "r_C01h"), ("sa.rules.c01", "r_C01i"), ("sa.rules.c22", "r_rule_params_eval"), ("sa.rules.b6", "r_C23"), ("sa.rules.c04", "r_C04a"), ("sa.rules.c04", "r_C04num"), ("sa.rules.c03", "r_C03k")],
     "C02": [("sa.rules.b6", "r_C02ab"), ("sa.rules.b3", "r_C02cd"), ("sa.rules.b3", "r_C08_C34"), ("sa.rules.c08", "r_C08bc"), ("sa.rules.c01", "r_C01ef")],
-    "C03": [("sa.rules.b1", "r_C03a"), ("sa.rules.b6", "r_C03bc"), ("sa.rules.b3", "r_C03de_C11a_C17bc"), ("sa.rules.c03", "r_C03fgh"), ("sa.rules.c03", "r_C03j"), ("sa.rules.c25", "r_C25efg")],
+    "C03": [("sa.rules.b1", "r_C03a"), ("sa.rules.b6", "r_C03bc"), ("sa.rules.b3", "r_C03de_C11a_C17bc"), ("sa.rules.c03", "r_C03fgh"), ("sa.rules.c03", "r_C03j"), ("sa.rules.c03", "r_C03k"), ("sa.rules.c25", "r_C25efg")],
     "C04": [("sa.rules.b2", "r_C04"), ("sa.rules.c04", "r_C04a"), ("sa.rules.c04", "r_C04num"), ("sa.rules.c04", "r_C04defaults"), ("sa.rules.c01", "r_C01ef"), ("sa.rules.cmisc", "r_C06bcd")],
     "C05": [("sa.rules.b3", "r_C05_C10"), ("sa.rules.c05", "r_C05cde"), ("sa.rules.c14", "r_C14h")],
     "C06": [("sa.rules.b7", "r_origin"), ("sa.rules.cmisc", "r_C06bcd")],
@@ -64,7 +64,7 @@ ALSO = {
     "C04": {"C01": ("C01.g",), "C06": ("C06.c",)},
     # C01.c (rule modifiers on an expression that ignores them) is the whitespace clause of C22 as well
     "C22": {"C01": ("C01.c",)},
-    "C01": {"C04": ("C04.a", "C04.d",), "C23": ("C23.c",)},
+    "C01": {"C04": ("C04.a", "C04.d",), "C23": ("C23.c",), "C03": ("C03.k",)},
     # C23.c (subscripted terminal in the invalid-regex handler) is the node-kind clause C01.f as well
     # C13 'the object processor registered for a rule': a registration replaces the previous table, never the built-in one (C04.e)
     "C13": {"C04": ("C04.e",)},
